@@ -51,6 +51,8 @@ def det_frac(A):
 
 def gen(chk, mpmath, rng):
     mp = mpmath.mp
+    for item in singular_cases(chk, mpmath, rng):
+        yield item
     for i in range(chk.pick(100, 6000)):
         p = rng.choice([40, 53, 53, 80, 120])
         mp.prec = p
@@ -140,6 +142,37 @@ def gen(chk, mpmath, rng):
                 yield ex.allj(*js), {"key": "elementwise", "B": B, "C": C, "k": k, "p": p, "what": "matrix +, -, *, **, transpose or a norm differs from its elementwise definition"}
         except (ZeroDivisionError, ValueError, TypeError, AssertionError):
             yield None
+
+
+def singular_cases(chk, mpmath, rng):
+    """the property's quantifier includes singular matrices, which must raise ZeroDivisionError for inverse / lu_solve"""
+    mp = mpmath.mp
+    for i in range(chk.pick(40, 600)):
+        n = rng.randint(2, 4)
+        rows = [[rng.randint(-5, 5) for _ in range(n)] for _ in range(n - 1)]
+        kind = rng.random()
+        if kind < 0.4:
+            rows.append([2 * v for v in rows[0]])                  # proportional rows
+        elif kind < 0.7:
+            rows.append([0] * n)                                   # zero row
+        else:
+            rows.append([rng.randint(-5, 5) for _ in range(n)])
+            col = rng.randrange(n)
+            for r in rows:
+                r[col] = 0                                         # zero column
+        rng.shuffle(rows)
+        which = rng.choice(["lu_solve", "inverse"])
+        try:
+            if which == "lu_solve":
+                mp.lu_solve(mp.matrix(rows), mp.matrix([1] * n))
+            else:
+                mp.inverse(mp.matrix(rows))
+            ok = False; exc = "no exception"
+        except ZeroDivisionError:
+            ok = True; exc = "ZeroDivisionError"
+        except Exception as e:
+            ok = False; exc = type(e).__name__
+        yield ({"j": "true"} if ok else {"j": "false"}), {"key": "singular/" + which, "A": rows, "p": 53, "exc": exc, "what": "a singular matrix did not raise ZeroDivisionError"}
 
 
 def cond_guard(n):
